@@ -763,6 +763,23 @@ func run(c *core.Ctx) {
 			checkLines(c, []string{a, b}, "")
 		}
 	}
+	// every Unicode scalar value as the FIRST character of a line (bare and behind a blank): only the markers
+	// themselves make a tag (a test on one byte of the character, or on its low bits, is wrong somewhere)
+	for lo := rune(0); lo <= 0x10FFFF; lo += 4096 {
+		if !c.Next() {
+			continue
+		}
+		for r := lo; r < lo+4096 && r <= 0x10FFFF; r++ {
+			if r >= 0xD800 && r <= 0xDFFF {
+				continue
+			}
+			checkLines(c, []string{string(r) + "key=v"}, "")
+			if r%16 == 11 || r%64 == 0 {
+				checkLines(c, []string{" " + string(r) + "key v", "tail"}, "")
+			}
+		}
+	}
+	c.Bound("first_character_of_a_line", "every Unicode scalar value")
 	checkLines(c, nil, "")
 	checkLines(c, []string{"+foo=value1", "+bar", "+foo value2", "+baz=\"qux\"", "text", "  @x  y  "}, "")
 	c.Sample(map[string]any{"lines": []string{"+a=b", " @a b"}})
